@@ -113,6 +113,27 @@ def mutSeq (c : Nat) : TVal Int → List (TVal Int) → Nat → List Json
       Json.mkObj [("d", ofTVal c st.val), ("log", logJson c st.log)] :: mutSeq c st.val os st.next
     | none => [Json.mkObj [("e", "LenaTypeError")]]
 
+def ofOutX : OutX (Slots Int) → Json
+  | .ok l => Json.mkObj [("r", ofDict l)]
+  | .lenaTypeError => Json.mkObj [("e", "LenaTypeError")]
+  | .lenaValueError => Json.mkObj [("e", "LenaValueError")]
+  | .typeError => Json.mkObj [("e", "Other:TypeError")]
+
+def toOptVal (j : Json) : Option (Option (Val Int)) :=
+  if j.isNull then some none else (toVal (getD j "v")).map some
+
+def toOther (j : Json) : Option (Other Int) :=
+  match j.getObjVal? "s" with
+  | .ok s => do
+    let e ← bool? (getD s "empty")
+    let ks ← natList? (getD s "keys")
+    let l ← int? (getD s "last")
+    some (.str e ks l)
+  | .error _ => (toVal (getD j "v")).map Other.val
+
+def dictList? (j : Json) : Option (List (Slots Int)) :=
+  (arr? j).bind (fun a => a.toList.mapM toDict)
+
 def pathAt (d o : Slots Int) (p : List Nat) : Json :=
   Json.mkObj [
     ("u", Json.bool (untouchedL o p)),
